@@ -5,12 +5,28 @@
 
 use crate::generate::*;
 use crate::typed::{Typed, canon_text};
-use anda_db_schema::{Document, DocumentOwned, FieldEntry, FieldKey, Json, Schema};
+use anda_db_schema::{Document, DocumentOwned, FieldEntry, FieldKey, Json, Schema, bf16};
 use std::collections::{BTreeMap, BTreeSet};
 use std::sync::Arc;
 use vcore::{Rng, Stats, json};
 
 pub const BRICK: &str = "C13/accepted_on_write_rejected_on_read";
+
+/// Reports a violation signature at most once per process (further hits are counted). Used only
+/// for the dedicated candidate-defect scenarios, which fire on every case and would otherwise
+/// fill the bounded violation list and hide other signatures.
+pub fn violation_once(st: &mut Stats, sig: String, detail: serde_json::Value) {
+    static SEEN: std::sync::Mutex<Option<BTreeSet<String>>> = std::sync::Mutex::new(None);
+    let mut g = SEEN.lock().unwrap();
+    let set = g.get_or_insert_with(BTreeSet::new);
+    if set.insert(sig.clone()) {
+        drop(g);
+        st.violation(sig, detail);
+    } else {
+        drop(g);
+        st.count(&format!("repeat:{sig}"));
+    }
+}
 
 pub fn build_schema(fields: &[(String, Ft)], version: u64) -> Result<Schema, String> {
     let mut b = Schema::builder();
@@ -175,11 +191,14 @@ fn accepted_must_read_back(
     let doc2 = match read_bytes(cx.schema, &bytes) {
         Ok(d) => d,
         Err((stage, e)) => {
-            st.violation(
-                format!("{BRICK}/{stage}"),
-                cx.detail(input, json!({"write_path": path, "error": e, "stored_bytes": hex(&bytes),
-                    "stored_value": brief(&doc.get_field("v"), 1500)})),
-            );
+            let sig = format!("{BRICK}/{stage}/{}", cx.class);
+            let detail = cx.detail(input, json!({"write_path": path, "error": e, "stored_bytes": hex(&bytes),
+                    "stored_value": brief(&doc.get_field("v"), 1500)}));
+            if cx.class == VECTOR_UNTYPED {
+                violation_once(st, sig, detail);
+            } else {
+                st.violation(sig, detail);
+            }
             return;
         }
     };
@@ -227,7 +246,7 @@ fn accepted_must_read_back(
             } else if bytes2 != bytes {
                 match read_bytes(cx.schema, &bytes2) {
                     Err((stage, e)) => st.violation(
-                        format!("{BRICK}/after_rewrite/{stage}"),
+                        format!("{BRICK}/after_rewrite/{stage}/{}", cx.class),
                         cx.detail(input, json!({"write_path": path, "error": e, "stored_bytes": hex(&bytes2)})),
                     ),
                     Ok(d3) => {
@@ -572,6 +591,44 @@ pub fn budget_case(case: u64, rng: &mut Rng, st: &mut Stats) {
     st.distinct(vcore::fnv_str(&class) ^ vcore::fnv_str(&type_shape(&ft)));
 }
 
+/// Class label of the dedicated scenario below (kept out of the random grey classes so that its
+/// alarm does not cut the `pairs` exploration short).
+pub const VECTOR_UNTYPED: &str = "vector_in_untyped_position_counts_as_one_node";
+
+/// A `Vector` sitting in an UNTYPED position (element of `Array([])`, value of `Map({})`): for the
+/// complexity budget it is one node when written, but len+1 nodes / an array of len elements
+/// once read back, where no declared type folds it back into a Vector. Returns (type, value).
+pub fn vector_in_untyped_value(rng: &mut Rng) -> (Ft, Fv) {
+    let big = |n: u32| Fv::Vector((0..n).map(|i| bf16::from_bits((i % 0x7f00) as u16)).collect());
+    let payload: Vec<Fv> = if rng.bool() {
+        vec![Fv::U64(1), big(4097)] // array length 4097 > 4096 on read
+    } else {
+        (0..90).map(|_| big(200)).collect() // 91 nodes when written, 18091 > 16384 on read
+    };
+    match rng.below(4) {
+        0 => (Ft::Array(vec![]), Fv::Array(payload)),
+        1 => (Ft::Option(Box::new(Ft::Array(vec![]))), Fv::Array(payload)),
+        2 => (
+            Ft::Map(BTreeMap::new()),
+            Fv::Map(payload.into_iter().enumerate().map(|(i, v)| (FieldKey::I64(i as i64), v)).collect()),
+        ),
+        _ => (
+            Ft::Map(BTreeMap::from([(FieldKey::Text("*".into()), Ft::Array(vec![]))])),
+            Fv::Map(BTreeMap::from([(FieldKey::Text("k".into()), Fv::Array(payload))])),
+        ),
+    }
+}
+
+pub fn vector_untyped_case(_case: u64, rng: &mut Rng, st: &mut Stats) {
+    let (ft, v) = vector_in_untyped_value(rng);
+    let Ok(schema) = build_schema(&[("v".to_string(), ft.clone())], 1) else {
+        return st.inconclusive("harness: schema build failed");
+    };
+    let schema = Arc::new(schema);
+    check_value(&PairCtx { schema: &schema, ft: &ft, class: VECTOR_UNTYPED }, &v, None, Expect::Grey, st);
+    st.count("grey:vector_in_untyped_position");
+}
+
 // ---------------------------------------------------------------------------------------------
 // typed path
 
@@ -661,7 +718,7 @@ pub fn typed_roundtrip<T: Typed>(rng: &mut Rng, st: &mut Stats, n: usize) {
             Ok(d) => d,
             Err((stage, e)) => {
                 st.violation(
-                    format!("{BRICK}/{stage}"),
+                    format!("{BRICK}/{stage}/typed"),
                     json!({"write_path": "typed try_from", "struct": T::NAME, "value": brief(&t, 3000),
                         "error": e, "stored_bytes": hex(&bytes)}),
                 );
@@ -877,7 +934,7 @@ pub fn upgrade_case(_case: u64, rng: &mut Rng, st: &mut Stats, with_retype: bool
     let n0 = 2 + rng.usize(3);
     let mut fields: Vec<UField> = vec![];
     for name in names.iter().take(n0) {
-        let ft = if rng.chance(2, 5) {
+        let ft = if with_retype || rng.chance(2, 5) {
             let nk = 2 + rng.usize(3);
             let k = keyed_type(rng, nk);
             wrap_keyed(rng, k)
@@ -907,7 +964,7 @@ pub fn upgrade_case(_case: u64, rng: &mut Rng, st: &mut Stats, with_retype: bool
     let mut nested_readded: BTreeMap<u64, BTreeSet<FieldKey>> = BTreeMap::new();
     let mut nested_readded_other_type: BTreeMap<u64, BTreeSet<FieldKey>> = BTreeMap::new();
     let mut log: Vec<String> = vec![];
-    let n_steps = 2 + rng.usize(4);
+    let n_steps = if with_retype { 3 + rng.usize(3) } else { 2 + rng.usize(4) };
 
     let write_docs = |vi: usize, ver: &Version, rng: &mut Rng, docs: &mut Vec<StoredDoc>, st: &mut Stats| {
         for _ in 0..2 {
@@ -945,7 +1002,7 @@ pub fn upgrade_case(_case: u64, rng: &mut Rng, st: &mut Stats, with_retype: bool
         let mut removed_now: Vec<String> = vec![];
         let mut nested_removed_now: Vec<(u64, FieldKey)> = vec![];
         for _ in 0..n_ops {
-            let op = rng.weighted(&[24, 20, 14, 14, 14, 10, if with_retype { 30 } else { 0 }]);
+            let op = if with_retype { rng.weighted(&[6, 4, 4, 6, 30, 6, 44]) } else { rng.weighted(&[24, 20, 14, 14, 14, 10, 0]) };
             match op {
                 0 => {
                     // add a new optional field
@@ -1143,7 +1200,9 @@ pub fn upgrade_case(_case: u64, rng: &mut Rng, st: &mut Stats, with_retype: bool
                     } else {
                         format!("C13/upgrade/old_document_unreadable/{stage}")
                     };
-                    st.violation(
+                    let report = if touched_by_retype { violation_once } else { |st: &mut Stats, s: String, d: serde_json::Value| st.violation(s, d) };
+                    report(
+                        st,
                         sig,
                         json!({"written_at_version": d.version + 1, "read_at_version": versions.len() + 1,
                             "error": e, "log": log, "stored_bytes": hex(&d.bytes),
